@@ -26,6 +26,7 @@ SLOT_WRITERS = {'cocls::future_common::future_common', 'cocls::future_common::su
 
 def run(ctx, db, tier):
     subscribe_protocol(ctx, db)
+    link_current(ctx, db)
     resolve_one_rmw(ctx, db)
     walk(ctx, db)
     result_used(ctx, db, 'C02.result-used', SUBSCRIBE_FAMILY)
@@ -96,6 +97,38 @@ def subscribe_protocol(ctx, db, rid='C02.subscribe-protocol'):
                desc='failed CAS not compared with the ready marker', trace=fmt_trace(bad_cmp or bad_false) if (bad_cmp or bad_false) else None)
         ctx.ob(rid, f, f['key'], bad_reset is None, 'a refused awaiter is left with _next == nullptr (otherwise its next subscription would swap the ready marker out)',
                desc='refused awaiter keeps the ready marker in _next', trace=fmt_trace(bad_reset) if bad_reset else None)
+
+
+def link_current(ctx, db, rid='C02.link-is-current-top'):
+    """lock-free push: the new node's link must be the value the CAS expects to replace.  A failed compare_exchange reloads its expected
+    argument, so the link has to be rewritten before every retry (or be the expected argument itself)"""
+    rid = ctx.rule(rid, 'PATHS', 'awaiter::subscribe / subscribe_check_ready (the lock-free push onto an awaiter chain): at every compare_exchange that publishes this awaiter, _next '
+                   'holds exactly the expected value of that attempt - it is the expected argument itself, or it was assigned from it after the last attempt reloaded it: '
+                   'no awaiter pushed by another thread between two attempts is cut off the chain', floor=2)
+    for name in ('cocls::awaiter::subscribe', 'cocls::awaiter::subscribe_check_ready'):
+        for f, trs in traces_of(db, name, per_instance=False, maxvisit=3):
+            ctx.paths(rid, len(trs))
+            bad = None; ncas = 0
+            for tr in trs:
+                fresh = {}
+                for it in tr:
+                    if it.k == 'write' and (it.get('path') or '') == 'this->_next':
+                        fresh = {(it.get('rhs') or ''): True}
+                    elif it.k == 'write' and re.fullmatch(r'local:\w+(#\d+)?', it.get('path') or ''):
+                        fresh.pop(it['path'], None)
+                    elif it.k == 'call' and atomic.is_atomic_call(it) and atomic.opname(it).startswith('compare_exchange') and atomic.objname(it) == 'param:chain':
+                        a = it.get('args') or [{}]
+                        exp = a[0].get('path') or ''
+                        if len(a) < 2 or a[1].get('path') != 'this':
+                            continue
+                        ncas += 1
+                        if exp != 'this->_next' and not fresh.get(exp):
+                            bad = bad or ('the awaiter is published with a link that is not the expected value of this attempt (%s): after a lost race the awaiters pushed in between are cut off the chain and never resumed' % exp, tr)
+                        fresh.pop(exp, None)        # a failed attempt reloads the expected value
+            if ncas == 0:
+                raise Broken('%s: no publishing compare_exchange on the chain found' % name)
+            ctx.ob(rid, f, f['key'], bad is None, '%s: _next is the expected value at every publishing CAS' % name.split('::')[-1] + ('' if not bad else ' -- ' + bad[0]), desc=bad[0] if bad else None,
+                   trace=fmt_trace(bad[1]) if bad else None)
 
 
 def _is_equal_true(br):
@@ -205,7 +238,7 @@ def walk(ctx, db, rid='C02.walk'):
                    trace=short_trace(bad[1], bad[2]) if bad else None)
 
 
-def result_used(ctx, db, rid, family, floor=8):
+def result_used(ctx, db, rid, family, floor=8, only=None):
     ctx.rule(rid, 'COUNT', 'the "registered?" answer of every subscribe-family call is returned, branched on, or stored in a flag that the caller branches on; never discarded '
              '(a refused registration must complete immediately). Calls synthesised by co_await are consumed by the language; callees that always return true are exempt by derivation', floor=floor)
     always_true = set()
@@ -217,6 +250,8 @@ def result_used(ctx, db, rid, family, floor=8):
                 always_true.add(k)
     seen = set()
     for f in db.all_instances():
+        if only is not None and not only(f):
+            continue
         for e in f.events():
             if e.k != 'call' or norm(e.get('callee')) not in family or e.get('implicit'):
                 continue
@@ -305,6 +340,13 @@ def sync_waits(ctx, db, rid='C02.sync-waits'):
             ctx.paths(rid, len(trs))
             bad = None; nreg = 0
             for tr in trs:
+                # one wait = one ready test and at most one registration: for an awaitable whose ready test acquires (mutex::ready is the
+                # try-lock CAS) a second poll after the wake-up requests the lock again while the caller already owns it
+                nar = sum(1 for c in calls(tr) if norm(c.get('callee')) == 'cocls::co_awaiter::await_ready')
+                nsub = sum(1 for c in calls(tr) if norm(c.get('callee')) == 'cocls::co_awaiter::subscribe')
+                if nar > 1 or nsub > 1:
+                    bad = bad or ('the wait asks await_ready() %d times and registers %d times on one path: the protocol of an awaitable is one ready test and one registration per wait '
+                                  '(a woken mutex waiter that polls again requests the lock it already owns and waits for itself)' % (nar, nsub), tr)
                 si = index_of(tr, lambda ev: ev.k == 'call' and norm(ev.get('callee')) in ('cocls::co_awaiter::subscribe',))
                 if si < 0:
                     continue
@@ -317,11 +359,11 @@ def sync_waits(ctx, db, rid='C02.sync-waits'):
                 if reg is True:
                     nreg += 1
                     if not waits or (dt >= 0 and waits[0] > dt):
-                        bad = ('registered waiter does not block before its awaiter dies', tr)
+                        bad = bad or ('registered waiter does not block before its awaiter dies', tr)
                 elif reg is False and waits:
-                    bad = ('a refused registration blocks anyway (nobody will ever wake it)', tr)
+                    bad = bad or ('a refused registration blocks anyway (nobody will ever wake it)', tr)
                 elif reg is None:
-                    bad = ('the registration result is not tested', tr)
+                    bad = bad or ('the registration result is not tested', tr)
             if nreg == 0 and not bad:
                 bad = ('no registered path', trs[0] if trs else [])
             ctx.ob(rid, f, f['key'], bad is None, 'blocks iff registered' + ('' if not bad else ' -- ' + bad[0]), desc=(bad[0] if bad else None), trace=fmt_trace(bad[1]) if bad else None)
